@@ -360,7 +360,7 @@ SPECS["C10"] = {
                                   "VerifC10_CollideCounter", "VerifC10_CollideTimer", "VerifC10_CollideSet", "VerifC10_Twin"]},
          "reach": {"VerifC10_Filter1_1_1": ["dropped", "forwarded", "host-cleared"], "VerifC10_CollideCounter": ["collided", "distinct"], "VerifC10_CollideSet": ["collided"]},
          "twin": {"VerifC10_Twin": True},
-         "limits": {"quick": {"timeout": "900s"}, "thorough": {"timeout": "5400s"}}},
+         "limits": {"quick": {"timeout": "900s"}, "thorough": {"timeout": "1800s"}}},
     ],
 }
 
